@@ -16,7 +16,8 @@
 From PCD Require Import Base.PyBase Base.Cfg Model.Data Model.Consts Model.LineTable Model.Blocks
   Model.CodeData Spec.Lnotab Spec.Dis Model.ViewSer Proofs.C02_Statements Proofs.C01_Statements
   Proofs.C03b_Statements Proofs.C03c_Statements Proofs.C06_Statements Proofs.NormalFormWf
-  Proofs.NormalizePreserves Spec.Exec Proofs.C05e_Statements Proofs.ExecLayout.
+  Proofs.NormalizePreserves Spec.Exec Proofs.C05e_Statements Proofs.ExecLayout Model.Flags Spec.FuncKind
+  Proofs.C11_Statements Proofs.C05h_Statements Proofs.NormalizeHeader.
 
 (* For every configuration and every code object satisfying view_wf (and whose opcodes are known):
    (1) the normal form of the decoded data has the same instruction stream as CPython reads in the
@@ -98,6 +99,35 @@ Theorem C05_same_execution_for_every_operand_level_interpreter :
         s1 = s2 /\ o1 = o2 /\ map ev_key t1 = map ev_key t2.
 Proof. exact C05_exec. Qed.
 Print Assumptions C05_same_execution_for_every_operand_level_interpreter.
+
+(* The header: normalization may change exactly two flag bits of the re-encoded code object - CO_NESTED is
+   cleared and CO_NOFREE is re-derived from the emitted tables (an unreferenced cell variable is dropped) -
+   and keeps the three argument counts and every other flag (generator / coroutine kind, *args, **kwargs,
+   future annotations, OPTIMIZED, NEWLOCALS).  The three count premises are CPython's own constructor
+   checks ("code: varnames is too small"); without them the statement is false
+   (NormalizeHeader.C05_header_counterexample). *)
+Theorem C05_normalization_keeps_the_header_up_to_nested_and_nofree : forall c code ks d d' code',
+  flags_wf (cfg_flags c) = true -> flag_value (cfg_flags c) NOFREE <> None ->
+  view_wf c code ks && ops_known c (co_code code) = true -> co_code code <> [] ->
+  zlen (co_freevars code) < 1073741824 -> zlen (co_varnames code) < 1073741824 ->
+  nodup_str (co_freevars code) = true ->
+  (0 <=? cfg_extended_arg c) && (cfg_extended_arg c <? 256) = true ->
+  0 <= (if cfg_v38 c then co_posonlyargcount code else 0) <= co_argcount code ->
+  0 <= co_kwonlyargcount code ->
+  co_argcount code + co_kwonlyargcount code <= zlen (co_varnames code) ->
+  decode_code c code ks = OK d ->
+  mapM_cd (fun k' => match from_const c k' with OK p => OK (k', p) | Err e => Err e end) (normalize d) = OK d' ->
+  encode_code c d' = OK code' ->
+  zlen (co_code code') < 1073741824 ->
+  co_argcount code' = co_argcount code
+  /\ co_kwonlyargcount code' = co_kwonlyargcount code
+  /\ co_posonlyargcount code' = (if cfg_v38 c then co_posonlyargcount code else 0)
+  /\ (forall f, f <> NESTED -> f <> NOFREE -> bit_set c f (co_flags code') = bit_set c f (co_flags code))
+  /\ bit_set c NESTED (co_flags code') = false
+  /\ bit_set c NOFREE (co_flags code')
+     = match co_freevars code', co_cellvars code' with [], [] => true | _, _ => false end.
+Proof. exact C05_header_corrected. Qed.
+Print Assumptions C05_normalization_keeps_the_header_up_to_nested_and_nofree.
 
 (* non-vacuity: the class of interpreters is inhabited by non-trivial members, e.g. a line tracer that
    takes a jump on every other step and halts on opcode 83 (RETURN_VALUE) *)
